@@ -93,8 +93,8 @@ def prove():
 
     # 32 bytes: 01000000 00000000 00000000 00000000 00000000 00000000 00000000 00000000 (eerste witness)
     wwriteval(1, 32)
-    for val in pubvals: wwriteval(val, 32)
-    for val in privvals: wwriteval(val, 32)
+    for val in pubvals: wwriteval(val % snarkjsp, 32)
+    for val in privvals: wwriteval(val % snarkjsp, 32)
 
     wfile.close()
 
